@@ -413,6 +413,35 @@ func runC05(c *Ctx) {
 	// ---------- R10 Client.Glob ----------
 	checkGlobComposite(c, "R10")
 
+	// ---------- R12 ReadDir returns the entries sorted by name, like os.ReadDir ----------
+	// (Walk's documented lexical order depends on it)
+	if rd := p.Func("(*Client).ReadDirContext"); rd == nil {
+		c.missing("R12", "(*Client).ReadDirContext")
+	} else {
+		var sorter ssa.Instruction
+		eachInstr(rd, func(in ssa.Instruction) {
+			if cc := callOf(in); cc != nil && (callIs(cc, "sort.Slice") || callIs(cc, "sort.SliceStable") || callIs(cc, "sort.Sort") || callIs(cc, "slices.SortFunc") || callIs(cc, "slices.SortStableFunc")) {
+				sorter = in
+			}
+		})
+		okSort := sorter != nil
+		if okSort {
+			// every return of a non-nil listing passes the sort (results are spilled to cells because of the defer:
+			// returnLeaves follows the reaching stores)
+			for _, rl := range returnLeaves(rd, 0) {
+				if isNilConst(rl.v) {
+					continue
+				}
+				last := rl.block.Instrs[len(rl.block.Instrs)-1]
+				if !dominates(sorter, last) {
+					okSort = false
+				}
+			}
+		}
+		c.check(okSort, "R12", "ReadDir sorts its result", p.Pos(rd.Pos()), "sorted by filename before it is returned",
+			"ReadDir returns the entries in the order the server sent them: os.ReadDir returns them sorted by filename, and Client.Walk (documented lexical order) inherits the server's order")
+	}
+
 	// ---------- R11 a file created without a permissions attribute gets 0666 before umask ----------
 	// (Client.Create and OpenFile send no attributes and document "mode 0666 (before umask)", which is what
 	// os.Create does; the default is the server's)
